@@ -52,5 +52,25 @@ out.append("Each seed was written by a fresh sub-agent that was given ONLY the p
            "(quick tier) against a scratch copy of /repo HEAD with the patch applied (`VERIF_REPO`), never against /repo itself. `seeded/<id>/` holds "
            "patch.diff, demo_break.py, SEED_NOTES.md (what it needs to manifest) and meta.json (what was run, result, history).\n")
 out.append(subprocess.run(["python3", "/verif/harness/seedreport.py"], capture_output=True, text=True).stdout)
+# first-run statistics per round, measured from the histories in meta.json
+import collections as _c
+_tot, _first = _c.Counter(), _c.Counter()
+for _f in sorted(glob.glob("/verif/seeded/*/meta.json")):
+    _m = json.load(open(_f))
+    _r = _m["seed_id"][3:]
+    _tot[_r] += 1
+    _missed_once = any(h.get("caught") is False for h in _m.get("history", []))
+    if not _missed_once:
+        _first[_r] += 1
+out.append("**How to read the table.** \"first run MISSED, caught after strengthening\" means the check as it stood when the seed arrived did not "
+           "catch it; the seed's INPUT / HISTORY CLASS (never the patch itself) was then added to the generator, model or oracle, and all earlier "
+           "seeds plus the unchanged tree at several seeds were re-run. Caught at first run, per round: "
+           + ", ".join("%s: %d/%d" % (r, _first[r], _tot[r]) for r in sorted(_tot)) +
+           " (histories of the earliest rounds are incomplete, so their first-run figures are upper bounds). The first-run rate of the last round "
+           "(f) is the honest estimate of what an unseen realistic change of this kind has to expect from the quick tier: roughly one in two; "
+           "what the misses had in common was an input or history dimension the generators did not span (re-render under another language, "
+           "subclassed Template, whitespace-only output, first-argument bare words, shared input hashes, real id generator under the scheduler, "
+           "flag-named variables, block-name reuse across `{% include %}`, mutated literal arguments), not a wrong theorem. The row `C03a x C01` "
+           "is informational: a C03 seed run against C01's check, which rightly leaves scoping to C03.\n")
 open(p, "w").write("\n".join(out) + "\n")
 print("DESIGN.md rebuilt:", len("\n".join(out).split("\n")), "lines")
